@@ -159,3 +159,57 @@ def posterior(m):
   loc = [float(v) for v in d.kwds['loc']]
   scale = [float(v) for v in d.kwds['scale']]
   return loc, scale, float(d.args[0])
+
+
+# ---------------------------------------------------------------------------
+# executed tie of the regenerated closed formulas (gen/Gen_Formulas.v evaluated on binary64 floats)
+FORMULAS_PRELUDE = ('From Coq Require Import List ZArith Bool PrimFloat.\nFrom MM Require Import lib.Values gen.Gen_Formulas '
+                    'harness.RunCommon harness.RunFormulas.\nImport ListNotations.\n')
+
+
+def fl(v):
+  from .common import float_lit
+  return '(%s)%%float' % float_lit(float(v))
+
+
+def impact_term(diag, y, n_test, sig, power, flevel, corr):
+  """(n_test, n, phi, tq_sig, tq_pow, std_y, corr, estimate_required_impact(corr)): the kernel values as the library
+  obtains them, and what the library answered."""
+  import numpy as np
+  from scipy import stats
+  n = len(y)
+  return '(%d%%Z, %d%%Z, %s, %s, %s, %s, %s, %s)' % (
+      n_test, n, fl(stats.f(dfn=1, dfd=n - 1).ppf(flevel)), fl(stats.t.ppf(sig, df=n - 2)), fl(stats.t.ppf(power, df=n - 2)),
+      fl(np.std(np.array(y), ddof=2)), fl(corr), fl(diag.estimate_required_impact(corr)))
+
+
+def tbrfit_term(diag, x, y, n_test, sig, xt, yt):
+  import numpy as np
+  from scipy import stats
+  n = len(x)
+  _, b, sigma, _ = diag.pretestfit
+  fit = diag.tbrfit(xt, yt)
+  return '(%d%%Z, %d%%Z, %s, %s, %s, %s, %s, %s, %s, %s, (%s, %s, %s, %s))' % (
+      n_test, n, fl(np.array(x).mean()), fl(np.array(y).mean()), fl(b), fl(sigma), fl(np.var(np.array(x), ddof=0)),
+      fl(stats.t.ppf(sig, df=n - 2)), fl(xt), fl(yt), fl(fit.estimate), fl(fit.cihw), fl(fit.sigma), fl(fit.scale))
+
+
+def formulas_compare(ck, iterms, fterms, tag, shard=200):
+  """Returns (indices of disagreeing impact terms, indices of disagreeing tbrfit terms)."""
+  from . import common
+  jobs = []
+  for kind, terms, ty, fn in (('i', iterms, 'icase', 'iagrees'), ('f', fterms, 'fcase', 'fagrees')):
+    for k in range(0, len(terms), shard):
+      jobs.append(('%s_formulas_%s_%d' % (tag, kind, k // shard), FORMULAS_PRELUDE +
+                   'Definition cases : list %s := %s.\nEval vm_compute in (mismatches %s cases).\n'
+                   % (ty, common.coq_list(terms[k:k + shard]), fn)))
+  res = common.coq_eval_many(jobs) if jobs else {}
+  bad = {'i': [], 'f': []}
+  for name, (rc, o) in res.items():
+    mm = common.parse_nat_list(o) if rc == 0 else None
+    kind, k = name.rsplit('_', 2)[1:]
+    if mm is None:
+      ck.tie_broken('correspondence', 'evaluation of the regenerated formulas failed (%s)' % name, o[-1500:])
+    else:
+      bad[kind] += [int(k) * shard + i for i in mm]
+  return sorted(bad['i']), sorted(bad['f'])
